@@ -14,7 +14,7 @@ import time
 
 from pyvc import core
 
-PIECES = ["line", " ", "\t", "12", "7", '"f.h"', '"a b.c"', "3", "x", '"', "1a", "@", "0x1", "(", ""]
+PIECES = ["line", " ", "\t", "12", "7", "0", '"f.h"', '"a b.c"', "3", "x", '"', "1a", "@", "0x1", "(", ""]
 NEXT = "42u q9\n"
 WELL = re.compile(r'^[ \t]*(line[ \t]+|line(?=")|(?=\d))?[ \t]*(\d+)([ \t]*("(?:[^"\\\n]|\\.)*")(?:[ \t]*\d+)*)?[ \t]*$')
 
@@ -80,6 +80,26 @@ def obligations(tier) -> core.Result:
                     break
         if len(bad) > 20:
             break
+    # very long digit sequences (CPython refuses to convert more than 4300 digits): the directive may be accepted or reported,
+    # but nothing other than the error callback may come out, and the next line stays intact
+    for body in (" " + "1" * 4400, "line " + "0" * 4400 + "7", ' 7 "f.c" ' + "3" * 4400, "line 2147483648", " 99999999999999999999"):
+        text = "#" + body + "\n" + NEXT
+        n += 1
+        errs = []
+        try:
+            lx = L.CLexer(lambda m, l, c: errs.append((m, l, c)), lambda: None, lambda: None, lambda nm: False)
+            lx.input(text, "in.c")
+            toks = []
+            for _ in range(20):
+                t = lx.token()
+                if t is None:
+                    break
+                toks.append(t)
+            got = [(t.type, t.value, t.column) for t in toks]
+            if got != [("INT_CONST_DEC", "42u", 1), ("ID", "q9", 5)]:
+                bad.append((body[:40] + "...", f"tokens after a directive with a {len(body)}-character body are {got}"))
+        except Exception as e:  # noqa
+            bad.append((body, f"{type(e).__name__} escapes the lexer on a directive with a {len(body)}-character body: {e}"[:300]))
     rep = None
     if bad:
         body, why = bad[0]
